@@ -169,6 +169,7 @@ pub fn run_batch(cfg: &BatchConfig) -> BatchResult {
         for _ in 0..cfg.workers.max(1) {
             s.spawn(|| {
                 let mut ctx = Ctx::new(cfg.own);
+                ctx.dfs_budget = if cfg.tier == "thorough" { 4000 } else { 1000 };
                 let mut eq = EqTable::default();
                 let mut failures = vec![];
                 let mut harness = None;
